@@ -359,7 +359,7 @@ var routerProps = map[string]string{
 func cmdRouter(prop string, args []string) {
 	o := baseOpts(prop, args)
 	start := time.Now()
-	nProj := 16
+	nProj := 24
 	if o.Tier == "thorough" {
 		nProj = 150
 	}
